@@ -190,6 +190,22 @@ CLAIMS["C14"] = dict(
     design_ref="DESIGN.md §3 C14",
 )
 
+CLAIMS["C15"] = dict(
+    technique="symbolic evaluation of type-checked HIR against the published Okhsv/Okhsl and HSLuv algorithms (staged value matching, symbolic differentiation of the crate's own Oklab->RGB for the Halley step), inverse laws by pieces, literal-duplicate agreement, finite case analysis over RGB orderings",
+    category="other",
+    text=("PARTIAL - the main clause (every in-bounds cylinder point stays in the RGB gamut within a tolerance for every hue; numerical "
+          "round trip) is NOT decided: it is an error bound on a polynomial fit plus one Halley step and a line-intersection search that no "
+          "static argument in reach establishes. Decided, for all inputs over the reals: LC::max_saturation = Ottosson's algorithm (sector "
+          "tests, 3x5 fit coefficients) and its refinement is exactly one Halley step on f = the sector's channel of the crate's own "
+          "oklab_to_linear_srgb(1, S a, S b) with f', f'' = its symbolic derivatives; find_cusp, ST::mid, ST::from, toe, toe_inv, "
+          "ChromaValues::from_normalized equal the published formulas and toe_inv.toe = id; the Okhsl saturation curve and its inverse are "
+          "mutual inverses on both pieces, meet at (C_mid, 0.8) and map [0, C_max] onto [0, 1]; find_gamut_intersection reuses the 15 "
+          "matrix literals of oklab_to_linear_srgb; LuvBounds::from_lightness = the HSLuv reference bound (M, kappa, epsilon, six lines), "
+          "intersection length formula, minimum over lines; hexcone: on all 26 orderings in-gamut RGB gives S in [0,1], V = max channel, "
+          "L = mid-range (Rgb<->Hsv/Hsl/Hwb formulas themselves: C02/C17). These are necessary conditions of the property."),
+    design_ref="DESIGN.md §3 C15",
+)
+
 CLAIMS["C16"] = dict(
     technique="symbolic evaluation of type-checked HIR into exact rational functions over uninterpreted powf/abs/signum/trig; staged value matching against the published CAM16 forward and inverse equations; exact matrix arithmetic",
     category="other",
